@@ -261,6 +261,19 @@ func c20Gen(r *rng.Rand, i int, tier string) interface{} {
 				}
 			}
 			in.Ins = ins
+			// a column that EqualFolds "Epoch" in the written series hits C29's finding (SerializeColumnsToRows
+			// skips it) or WriteCSM's Epoch type check with an integer width the model does not see: such
+			// results are only generated without INSERT
+			for _, it := range in.Sel {
+				if it.A != "" && strings.EqualFold(it.A, "Epoch") {
+					in.Ins = nil
+				}
+			}
+			// after an alias collision a result column may hold another column's data of another element type,
+			// which WriteCSM coerces (C14's subject, not modelled): collisions are generated without INSERT
+			if in.Ins != nil && c20Classify(in).aliasCollision {
+				in.Ins = nil
+			}
 		}
 	}
 	return in
